@@ -411,3 +411,41 @@ Section Members.
     destruct k; cbn; try reflexivity.
   Qed.
 End Members.
+
+(* ================================================================ query parameters (C03 clause d) *)
+From J5V.model Require Import CodecDecQuery.
+
+(* the JSON token that a query parameter's text stands for: the quoted string, except that
+   "true" / "false" for a bool field are the JSON literals *)
+Definition query_token (k : scalar_kind) (v : bytes) : token :=
+  match query_go_value (scalar_kind_eqb k KBool) v with
+  | GBool b => TBool b
+  | _ => TStr v
+  end.
+
+Lemma query_token_goval k v :
+  goval_of_token (query_token k v) = query_go_value (scalar_kind_eqb k KBool) v.
+Proof.
+  unfold query_token, query_go_value. destruct (scalar_kind_eqb k KBool); [|reflexivity].
+  destruct (bytes_eqb v str_true); [reflexivity|]. destruct (bytes_eqb v str_false); reflexivity.
+Qed.
+
+Lemma query_token_not_delim k v : is_delim (query_token k v) = false.
+Proof.
+  unfold query_token. destruct (query_go_value (scalar_kind_eqb k KBool) v); reflexivity.
+Qed.
+
+(* a scalar supplied as the single value of a query parameter is stored exactly as the JSON
+   member with the corresponding token would be: same message, same errors *)
+Theorem query_scalar_as_json orc e me f d props name p k v m st :
+  find_prop props name = Some p -> p_ty p = FScalar k ->
+  mem_bytes (p_json p) (qt_seen st) = false -> oneof_conflict p m = false ->
+  omap fst (query_final orc e props name [v] m st) =
+  omap fst (decode_present orc e me (S f) d p (query_token k v :: []) m).
+Proof.
+  intros Hp Hk Hs Hc. unfold query_final, create_check. rewrite Hp, Hs, Hc. cbn [obind].
+  cbn [decode_present]. rewrite Hk. cbn [next_token obind fst snd].
+  rewrite query_token_not_delim, query_token_goval.
+  destruct (scalar_from_go orc k (query_go_value (scalar_kind_eqb k KBool) v)) as [r| | |]; cbn [obind omap]; try reflexivity.
+  destruct (with_holder (p_path p) m _) as [[m' u]| | |]; reflexivity.
+Qed.
